@@ -948,6 +948,104 @@ def role_of(t: str) -> str:
     return "other"
 
 
+# =============================================================================== C16
+CKPT_LIMIT = 256 * 1024
+RESP_LIMIT = 6 * 1024 * 1024 - 50
+
+
+def mon_c16(ix: Index):  # noqa: C901, PLR0912
+    out = []
+    n = 0
+    rc_ctx: dict[str, int] = {}  # ctx id -> seq of its SUCCEED with ReplayChildren
+    for a in ix.applied:
+        u = a.get("u")
+        if not u:
+            continue
+        if u.get("Type") == "CONTEXT" and u.get("Action") == "SUCCEED":
+            n += 1
+            pl = u.get("Payload") or ""
+            nbytes = len(pl.encode("utf-8", "surrogatepass"))
+            path = ix.id2path.get(u["Id"], "?")
+            rc = bool((u.get("ContextOptions") or {}).get("ReplayChildren"))
+            if nbytes > CKPT_LIMIT:
+                how = "chars-within-limit-bytes-over" if len(pl) <= CKPT_LIMIT else "over-limit"
+                out.append(V("C16", "C16/context-payload-over-256KB/%s" % how, "%s checkpointed %d bytes (%d chars), ReplayChildren=%s" % (path, nbytes, len(pl), rc), a["seq"]))
+            node = ix.nodes.get(path)
+            want_big = None
+            if node is not None and isinstance(node.get("result"), dict) and "big" in node["result"]:
+                ch = node["result"].get("ch", "x")
+                want_big = (node["result"]["big"] * len(ch.encode("utf-8")) + 2) > CKPT_LIMIT
+            else:
+                m = re.match(r"^(.*)/b(\d+)$", path)
+                if m:
+                    pn = ix.nodes.get(m.group(1))
+                    if pn is not None:
+                        bn = (pn.get("per_item") or pn.get("branches") or [pn] * 99)
+                        bnode = bn[int(m.group(2))] if pn["k"] == "par" or pn.get("per_item") else pn
+                        if isinstance(bnode.get("result"), dict) and "big" in bnode["result"]:
+                            want_big = (bnode["result"]["big"] + 2) > CKPT_LIMIT
+            if want_big is True and not rc:
+                out.append(V("C16", "C16/oversized-result-not-marked-replay-children", "%s result exceeds the limit but ReplayChildren is not set" % path, a["seq"]))
+            if want_big is False and rc:
+                out.append(V("C16", "C16/small-result-marked-replay-children", "%s result is within the limit but ReplayChildren is set" % path, a["seq"]))
+            if rc:
+                rc_ctx[u["Id"]] = a["seq"]
+        if u.get("Type") == "CONTEXT" and u.get("Action") == "FAIL":
+            path = ix.id2path.get(u["Id"], "?")
+            m = re.match(r"^(.*)/b(\d+)$", path)
+            et = (u.get("Error") or {}).get("ErrorType")
+            if m and et == "AttributeError":
+                out.append(V("C16", "C16/branch-with-oversized-result-recorded-failed/%s" % et, "%s FAILED with %s: %s" % (path, et, str((u.get("Error") or {}).get("ErrorMessage"))[:80]), a["seq"]))
+    # nothing is recorded for a summarised context or its descendants afterwards
+    for a in ix.applied:
+        u = a.get("u")
+        if not u or u.get("Type") == "EXECUTION":
+            continue
+        oid = u["Id"]
+        for anc in [oid, *ix.ancestors(oid)]:
+            if anc in rc_ctx and a["seq"] > rc_ctx[anc]:
+                out.append(V("C16", "C16/update-sent-during-replay-children/%s-%s" % (u["Type"], u["Action"]), "%s %s for %s after its summarised context completed" % (u["Type"], u["Action"], ix.id2path.get(oid)), a["seq"]))
+                break
+    # replayed value of a summarised context equals the first value (C02 covers all paths; counted here for evidence)
+    firstval: dict[str, str] = {}
+    for e in ix.trace:
+        if e["kind"] == "ret" and e.get("rc"):
+            n += 1
+            if firstval.setdefault(e["path"], e["val"]) != e["val"]:
+                kind = "failed-item-error-type" if "CallableRuntimeError" in firstval[e["path"]] or "CallableRuntimeError" in e["val"] else "value"
+                out.append(V("C16", "C16/replay-children-rebuilt-value-differs/%s" % kind, "%s rebuilt value differs from the first one" % e["path"], e["i"]))
+        if e["kind"] == "fn_enter" and e.get("fnkind") in ("step", "check", "submitter") and e.get("st") in TERMINAL:
+            out.append(V("C16", "C16/completed-step-reexecuted-during-replay", "%s" % e["path"], e["i"]))
+    # final result / error around the response limit
+    for e in ix.trace:
+        if e["kind"] != "inv_end_summary" or not e.get("outcome") or e["outcome"]["kind"] != "return":
+            continue
+        v = e["outcome"]["value"]
+        if not isinstance(v, dict):
+            continue
+        import json as _json
+
+        size = len(_json.dumps(v))
+        er = e.get("exec_result")
+        if v.get("Status") in ("SUCCEEDED", "FAILED"):
+            n += 1
+            if size > RESP_LIMIT + 200:
+                out.append(V("C16", "C16/response-over-lambda-limit", "handler returned %d bytes" % size, e["i"]))
+            if v.get("Status") == "SUCCEEDED" and v.get("Result") == "" and not (er and er["action"] == "SUCCEED" and er.get("payload")):
+                out.append(V("C16", "C16/empty-result-without-recorded-payload", "SUCCEEDED with empty Result but no EXECUTION SUCCEED payload", e["i"]))
+            ret = ix.prog.get("ret") or {}
+            if v.get("Status") == "SUCCEEDED" and "big" in ret:
+                full = ret["big"] + 2
+                if full > RESP_LIMIT and v.get("Result") != "":
+                    out.append(V("C16", "C16/oversized-final-result-returned-inline", "result of %d bytes returned in the response" % full, e["i"]))
+                if full <= RESP_LIMIT and v.get("Result") == "":
+                    out.append(V("C16", "C16/small-final-result-not-returned-inline", "result of %d bytes" % full, e["i"]))
+                if v.get("Result") == "" and er and len(er.get("payload") or "") != full:
+                    out.append(V("C16", "C16/recorded-final-result-truncated", "recorded %d bytes of %d" % (len(er.get("payload") or ""), full), e["i"]))
+    ix.r.setdefault("stats", {})["c16_events"] = n
+    return out
+
+
 MONITORS = {
     "C01": mon_c01,
     "C02": mon_c02,
@@ -959,6 +1057,7 @@ MONITORS = {
     "C12": mon_c12,
     "C13": mon_c13,
     "C14": mon_c14,
+    "C16": mon_c16,
     "C17": mon_c17,
     "C18": mon_c18,
 }
